@@ -303,21 +303,29 @@ Definition add_or_update_node (c : cache) (o : nodeobj) : cache :=
   with_nodes c (<[nid := ni]> (c_nodes c))
              (if bool_decide (nid ∈ c_nodelist c) then c_nodelist c else c_nodelist c ++ [nid]).
 
-(* AddOrUpdateNode(node): setOversubscription keeps the previous amount of an
-   annotation that is no longer there (OversubscriptionResource is only ever
-   overwritten), the flags are recomputed from the delivered version *)
 (* Allocatable of a NodeInfo built from this version alone *)
 Definition obj_alloc (v : nodever) : res :=
   add (nv_base v) (mkRes (default 0 (nv_over_cpu v)) (default 0 (nv_over_mem v)) None).
 
-Definition node_attr (c : cache) (v : nodever) : nattr :=
+(* AddOrUpdateNode(node): setOversubscription recomputes the oversold amounts and the
+   flags from the delivered version alone (after fix d373588) *)
+Definition node_attr (v : nodever) : nattr :=
+  mkNAttr (default 0 (nv_over_cpu v)) (default 0 (nv_over_mem v))
+          (nv_over_node v) (nv_offline v) (nv_zone v) (obj_alloc v).
+Definition eff_obj (v : nodever) : nodeobj :=
+  mkNodeObj (nv_id v) (add (nv_base v) (over_res (node_attr v))).
+Definition node_event (c : cache) (v : nodever) : cache :=
+  with_nattr (add_or_update_node c (eff_obj v)) (<[nv_id v := node_attr v]> (c_nattr c)).
+
+(* before fix d373588 OversubscriptionResource was only ever overwritten: the amount of an
+   annotation that is no longer there survived from the previous version *)
+Definition node_attr_prefix (c : cache) (v : nodever) : nattr :=
   let old := default no_attr (c_nattr c !! nv_id v) in
   mkNAttr (default (na_over_cpu old) (nv_over_cpu v)) (default (na_over_mem old) (nv_over_mem v))
           (nv_over_node v) (nv_offline v) (nv_zone v) (obj_alloc v).
-Definition eff_obj (c : cache) (v : nodever) : nodeobj :=
-  mkNodeObj (nv_id v) (add (nv_base v) (over_res (node_attr c v))).
-Definition node_event (c : cache) (v : nodever) : cache :=
-  with_nattr (add_or_update_node c (eff_obj c v)) (<[nv_id v := node_attr c v]> (c_nattr c)).
+Definition node_event_prefix (c : cache) (v : nodever) : cache :=
+  with_nattr (add_or_update_node c (mkNodeObj (nv_id v) (add (nv_base v) (over_res (node_attr_prefix c v)))))
+             (<[nv_id v := node_attr_prefix c v]> (c_nattr c)).
 
 Fixpoint remove_first (x : positive) (l : list positive) : list positive :=
   match l with
@@ -537,7 +545,7 @@ Inductive event :=
 | EEvict (jid tid : positive) (ok : bool)
 | EApiGone (id : positive).   (* the pod is deleted on the API server; DeletePod comes later *)
 
-Definition handle_with (rm : cache -> positive -> cache) (c : cache) (e : event) : cache :=
+Definition handle_with (rm : cache -> positive -> cache) (nd : cache -> nodever -> cache) (c : cache) (e : event) : cache :=
   match e with
   | EPod p =>
     let c1 := match c_store c !! p_id p with
@@ -550,7 +558,7 @@ Definition handle_with (rm : cache -> positive -> cache) (c : cache) (e : event)
     | None => c
     | Some old => let c1 := delete_pod c old in with_store c1 (delete id (c_store c1)) (c_gone c1 ∖ {[id]})
     end
-  | ENode v => node_event c v
+  | ENode v => nd c v
   | ENodeDel id => rm c id
   | EPG g => set_pod_group c g
   | EPGDel id => delete_pod_group c id
@@ -563,11 +571,13 @@ Definition handle_with (rm : cache -> positive -> cache) (c : cache) (e : event)
   | EApiGone id => if bool_decide (is_Some (c_store c !! id)) then with_store c (c_store c) ({[id]} ∪ c_gone c) else c
   end.
 
-Definition handle := handle_with remove_node.
-Definition handle_prefix := handle_with remove_node_prefix.
+Definition handle := handle_with remove_node node_event.
+Definition handle_prefix := handle_with remove_node_prefix node_event.       (* before fix e29cb66 *)
+Definition handle_over_prefix := handle_with remove_node node_event_prefix.  (* before fix d373588 *)
 
 Definition run (c : cache) (h : list event) : cache := fold_left handle h c.
 Definition run_prefix (c : cache) (h : list event) : cache := fold_left handle_prefix h c.
+Definition run_over_prefix (c : cache) (h : list event) : cache := fold_left handle_over_prefix h c.
 
 (* ---------- the final objects of a history and the cache built from them alone ---------- *)
 
